@@ -34,7 +34,7 @@ Proof. vm_compute. reflexivity. Qed.
 Example ex_call_roundtrip : decode_message (ex_call_bytes ++ m_body ex_call) 0 =
   Ok {| dm_hdr := hdr_of_msg ex_call 7; dm_body := m_body ex_call;
         dm_sig := if is_nil (m_body ex_call) then [] else m_sig ex_call; dm_nfds := 0 |}.
-Proof. exact (roundtrip ex_call 7 ex_call_bytes 0 ex_call_typed ex_serial ex_call_required ex_call_marshal). Qed.
+Proof. exact (roundtrip ex_call 7 ex_call_bytes 0 ex_call_typed ex_serial ex_call_marshal). Qed.
 
 (* the header is a valid header in the sense of the specification *)
 Example ex_call_valid : ValidHeader (firstnN 71 ex_call_bytes) (hdr_of_msg ex_call 7).
@@ -47,7 +47,7 @@ Qed.
 (* acceptance, as an instance of the theorem: the hypotheses are satisfiable *)
 Example ex_call_fields_valid : fields_valid ex_call.
 Proof.
-  split; [|intros _; vm_compute; reflexivity]. unfold names_valid. cbn.
+  split; [|split; [intros _; vm_compute; reflexivity|intros C; now elim C]]. unfold names_valid. cbn.
   refine (conj _ (conj I (conj I (conj _ (conj _ I))))).
   - apply (validated validate_interface _ _ validate_interface_spec). vm_compute. reflexivity.
   - apply (validated validate_membername _ _ validate_membername_spec). vm_compute. reflexivity.
@@ -55,13 +55,25 @@ Proof.
 Qed.
 Example ex_call_accept : marshal_msg ex_call 7 = Ok (spec_header ex_call 7).
 Proof.
-  apply marshal_accept; [exact ex_call_typed|exact ex_call_fields_valid|discriminate|vm_compute; discriminate|vm_compute; discriminate|cbn; lia].
+  apply marshal_accept; [exact ex_call_typed|exact ex_call_fields_valid|discriminate|exact ex_call_required|vm_compute; discriminate|vm_compute; discriminate|cbn; lia].
 Qed.
 
 (* refusal: a member name starting with a digit, and the Invalid type *)
 Example ex_refuse_name : marshal_msg (build_call false [49; 77] (Some [47; 112]) None None) 7 = Err.
 Proof. vm_compute. reflexivity. Qed.
 Example ex_refuse_invalid : marshal_msg (new_msg false) 7 = Err.
+Proof. vm_compute. reflexivity. Qed.
+(* refusal: a method return without REPLY_SERIAL (DynamicHeader::default().make_response()), a call without PATH *)
+Example ex_refuse_reply_without_serial : marshal_msg (make_response false None None) 7 = Err /\ ~ required_present (make_response false None None).
+Proof. split; [vm_compute; reflexivity|]. cbn. intros H. now apply H. Qed.
+Example ex_refuse_call_without_path : marshal_msg (build_call false [77] None None None) 7 = Err.
+Proof. vm_compute. reflexivity. Qed.
+(* refusal: one of two descriptors of the body has been taken *)
+Definition ex_taken : msg :=
+  {| m_typ := MReply; m_flags := 0; m_be := false; m_reply_serial := Some 5; m_interface := None; m_destination := None;
+     m_sender := None; m_member := None; m_object := None; m_error_name := None; m_body := [0; 0; 0; 0; 1; 0; 0; 0];
+     m_sig := [104; 104]; m_nfds := 2; m_live := 1 |}.
+Example ex_refuse_taken_descriptor : marshal_msg ex_taken 7 = Err.
 Proof. vm_compute. reflexivity. Qed.
 Example ex_not_valid_member : ~ ValidMember [49; 77].
 Proof. intros (_ & _ & _ & _ & H). apply H. exists 49, [77]. split; [reflexivity|]. unfold digit. lia. Qed.
